@@ -218,6 +218,10 @@ Proof.
   rewrite build_ops_blk in *. pose proof (ops_blocks_le ops). fold size in H.
   simpl. split; [|reflexivity]. split; [apply upd_last_forall; [intros; now apply build_ops_binv | exact HFb]|].
   assert (Eadd : b_blk l + ops_blocks ops - b_blk l = ops_blocks ops) by lia. rewrite Eadd.
-  destruct (ph s); try (destruct Hph as [Hb Ha]; split; [exact Hb|]); try lia.
-  rewrite Ed in Hph. destruct Hph. discriminate.
+  destruct (ph s) eqn:Ep; cbn [ph alloc builders MsgQueue.done].
+  - lia.
+  - destruct Hph as [Hb Ha]. split; [exact Hb | lia].
+  - destruct Hph as [Hb Ha]. split; [exact Hb | lia].
+  - lia.
+  - destruct Hph as [_ Hd]. congruence.
 Qed.
